@@ -372,6 +372,11 @@ def let_env(body):
                     sub = fd.get("pat", {})
                     if sub.get("k") == "Binding" and "Mut" not in (sub.get("mode") or "").split(",")[-1] and not sub.get("sub") and sub.get("hid") is not None:
                         env[sub["hid"]] = {"k": "Field", "e": n["init"], "name": fd["name"], "line": n.get("line"), "exp": False}
+            elif q.get("k") == "Tuple" and strip(n["init"]).get("k") == "Tup" and len(strip(n["init"])["elems"]) == len(q.get("pats", [])):
+                # `let (previous, current) = (chars[i - 1], chars[i]);` -- each binding is the element at its position
+                for sub, el in zip(q["pats"], strip(n["init"])["elems"]):
+                    if sub.get("k") == "Binding" and "Mut" not in (sub.get("mode") or "").split(",")[-1] and not sub.get("sub") and sub.get("hid") is not None:
+                        env[sub["hid"]] = el
             elif q.get("k") == "Tuple" and field_path(n["init"]) is not None:
                 # `let (l, r) = self.format.sentence.truth_brackets;` -- each binding is the corresponding field of the (pure) place
                 for i_, sub in enumerate(q.get("pats", [])):
@@ -397,6 +402,84 @@ def through_lets(e, env, depth=6):
         else:
             out[k] = v
     return out
+
+
+# ---- variant tests ----------------------------------------------------------------------------------------------------------------------
+_IS_VARIANT = {"is_none": "None", "is_some": "Some", "is_ok": "Ok", "is_err": "Err"}
+
+
+def _binds(p):
+    return any(n.get("k") == "Binding" for n in walk(p))
+
+
+def variant_test(c):
+    """(subject expr, variant name, positive) of a condition that only asks "is this value that variant?", however it is spelled:
+    `matches!(x, P)` (a match with the arms `P => true, _ => false`), `x.is_none()` / is_some / is_ok / is_err, `x == Enum::Unit` / `!=`;
+    else None."""
+    c = strip(c)
+    while c.get("k") == "DropTemps":
+        c = strip(c["e"])
+    if c.get("k") == "Match" and len(c.get("arms", [])) == 2 and "Desugar" not in c.get("source", "") and not any(a.get("guard") for a in c["arms"]):
+        a0, a1 = c["arms"]
+        b0, b1 = strip(a0["body"]), strip(a1["body"])
+        if all(b.get("k") == "Lit" and isinstance(b["lit"].get("v"), bool) for b in (b0, b1)) and b0["lit"]["v"] != b1["lit"]["v"] \
+                and a1["pat"].get("k") == "Wild" and not _binds(a0["pat"]):
+            try:
+                v = pat_variants(a0["pat"])
+            except Unrecognised:
+                return None
+            if v is not None and len(v) == 1:
+                return c["scrut"], str(list(v)[0]), bool(b0["lit"]["v"])
+        return None
+    if c.get("k") == "MethodCall" and c.get("method") in _IS_VARIANT and not c.get("args") \
+            and (c.get("def") or "").startswith(("std::option::Option", "std::result::Result", "core::option::Option", "core::result::Result")):
+        return c["recv"], _IS_VARIANT[c["method"]], True
+    if c.get("k") == "Binary" and c.get("op") in ("==", "Eq", "!=", "Ne"):
+        for a, b in ((c["l"], c["r"]), (c["r"], c["l"])):
+            b0 = strip(b)
+            while b0.get("k") in ("AddrOf", "Deref") or (b0.get("k") == "Unary" and b0.get("op") in ("*", "Deref")):
+                b0 = strip(b0["e"])
+            if b0.get("k") == "Path" and b0.get("path", {}).get("defkind", "").startswith("Ctor(Variant, Const"):
+                return a, variant_of(b0["path"]), c["op"] in ("==", "Eq")
+    return None
+
+
+def decision(e):
+    """([(subject expr, variant, positive)], then, else) of a two-way decision that consists of variant tests only:
+    `if t1 && t2 { A } else { B }` with every conjunct a variant test, or `match (s1, s2) { (P1, P2) => A, _ => B }` with binding-free
+    patterns (a wildcard position tests nothing); else None."""
+    e = strip(e)
+    if e.get("k") == "Match" and len(e.get("arms", [])) == 2 and "Desugar" not in e.get("source", "") and "ForLoop" not in e.get("source", "") \
+            and not any(a.get("guard") for a in e["arms"]) and e["arms"][1]["pat"].get("k") == "Wild" and not _binds(e["arms"][0]["pat"]):
+        q, sc = e["arms"][0]["pat"], strip(e["scrut"])
+        while q.get("k") in ("Ref", "Box", "Deref"):
+            q = q["pat"]
+        pairs = list(zip(sc["elems"], q["pats"])) if q.get("k") == "Tuple" and sc.get("k") == "Tup" and len(sc["elems"]) == len(q["pats"]) and q.get("ddpos") is None \
+            else [(e["scrut"], q)] if q.get("k") != "Tuple" else None
+        if pairs is None:
+            return None
+        tests = []
+        for x, sub in pairs:
+            try:
+                v = pat_variants(sub)
+            except Unrecognised:
+                return None
+            if v is None:
+                continue
+            if len(v) != 1:
+                return None
+            tests.append((x, str(list(v)[0]), True))
+        return (tests, e["arms"][0]["body"], e["arms"][1]["body"]) if tests else None
+    br = as_branch(e)
+    if br is None or strip(br[0]).get("k") == "LetExpr":
+        return None
+    tests = []
+    for c in conjuncts(br[0]):
+        vt = variant_test(c)
+        if vt is None:
+            return None
+        tests.append(vt)
+    return tests, br[1], br[2]
 
 
 # ---- branches ---------------------------------------------------------------------------------------------------------------------------
